@@ -5145,6 +5145,7 @@ class DecRule:
             self.depend = np.zeros((self.size,
                                     self.model.sup_model.vars[-1].last),
                                    dtype=int)
+        self.widen_depend()
 
         indices = rvar.get_ind()
         if ldr_indices is None:
@@ -5160,12 +5161,21 @@ class DecRule:
 
         self.depend[ldr_indices, indices] = 1
 
+    def widen_depend(self):
+
+        num_rand = self.model.sup_model.vars[-1].last
+        if self.depend.shape[1] < num_rand:
+            extra = np.zeros((self.size, num_rand - self.depend.shape[1]),
+                             dtype=int)
+            self.depend = np.concatenate((self.depend, extra), axis=1)
+
     def to_affine(self):
 
         if self.roaffine is not None:
             return self.roaffine
         else:
             if self.depend is not None:
+                self.widen_depend()
                 num_ones = self.depend.sum()
                 var_coeff = self.model.dvar(num_ones)
                 self.var_coeff = var_coeff
